@@ -17,6 +17,7 @@ chk.pid selects the property: C08 clauses are only reported for C08, C04 clauses
 """
 import json
 import logging
+import time
 import random
 import re
 import tempfile
@@ -32,13 +33,24 @@ CLAUSES = {1: 'Payload', 2: 'TruncIsError', 3: 'CompleteIsOk', 4: 'NoOverRead', 
            17: 'NoStray', 18: 'EventPairs'}
 C08_INVS = ['D_Payload', 'D_TruncIsError', 'D_CompleteIsOk', 'D_NoOverRead', 'D_Persist', 'NoHang']
 C04_INVS = ['D_RespBytes', 'ReqBytes', 'RecCount', 'RecAtMostOne', 'D_RecBlocks', 'RecLinked']
-ACTIONS = ['Start', 'Stall', 'HdrLine', 'Body', 'LenDone', 'LenRead', 'CloseRead', 'ChHdr', 'ChBody', 'ChNl',
-           'Trailer', 'Fin', 'FinNb', 'RaiseErr']
+ACTIONS = ['Start', 'Stall', 'HdrLine', 'Body', 'LenDone', 'LenEOF', 'LenRead', 'CloseEOF', 'CloseRead', 'ChHdr',
+           'ChBodyEOF', 'ChBody', 'ChNl', 'Trailer', 'Fin', 'FinNb', 'RaiseErr']
 
 ALL = dict(methods=('GET', 'HEAD'), statuses=(200, 204, 304), interims=(0, 1),
            te=('none', 'chunked', 'Chunked', 'gzip, chunked'), cl=('none', 'exact', 'larger', 'smaller', 'nonnum', 'neg'),
            conn=('none', 'close', 'keep-alive'), ver=('1.1', '1.0'), fmt=('crlf', 'lf', 'nospace', 'folded', 'dup'),
            bodies=(0, 1, 2, 3, 13), split=(1, 2), ext=(False, True), tr=(False, True), sclose=(False, True))
+
+
+_RE_COV2 = re.compile(r'^<(\w+) line \d+, col \d+ to line \d+, col \d+ of module (\w+) \([\d ]+\)>: (\d+):(\d+)', re.M)
+
+
+def fix_coverage(res):
+    """harness.tlc's coverage pattern misses sub-actions printed with a location suffix (the \\E k part of a
+    disjunction): add them."""
+    for mm in _RE_COV2.finditer(res.get('out', '')):
+        res['coverage'][mm.group(1)] = res['coverage'].get(mm.group(1), 0) + int(mm.group(4))
+    return res
 
 
 def S(xs):
@@ -200,15 +212,19 @@ def random_scenario(rng, NX):
 
 
 # ------------------------------------------------------------------ signatures
-def signature(pid, clause, exchanges, x):
-    """Input class of the violation: the first message up to exchange x that belongs to a special class (the
-    later exchanges on that connection inherit its desynchronisation), else the coarse shape of message x."""
-    for j in range(x):
-        k = M.msg_class(exchanges[j]['cm'])
+def signature(pid, clause, exchanges, x, dones, fix):
+    """Input class of the violation: the special class of message x, else that of the nearest earlier message
+    whose connection was carried over (its desynchronisation is inherited), else the coarse shape of message x."""
+    j = x
+    while j >= 1:
+        k = M.msg_class(exchanges[j - 1]['cm'], fix)
         if k:
             sig = {'clause': 'Framing' if pid == 'C08' else 'Archive'}
             sig.update(k)
             return sig
+        j -= 1
+        if j >= 1 and dones.get(j, {}).get('closed', True):
+            break
     sig = {'clause': clause}
     sig.update(M.plain_class(exchanges[x - 1]['cm']))
     return sig
@@ -253,6 +269,8 @@ def describe(ex):
 def run(chk):
     logging.getLogger('wpull').setLevel(logging.CRITICAL)
     quick = chk.tier == 'quick'
+    t00 = time.time()
+    T = {}
     pid = chk.pid
     warc = pid == 'C04'
     rng = random.Random(chk.seed * 7919 + (4 if warc else 8))
@@ -271,37 +289,39 @@ def run(chk):
                                 ver=ALL['ver'], fmt=ALL['fmt'], bodies=(13,), ext=(True,), tr=(True,), sclose=(False, True)),
              'none'),
             ('persist', 2, space(interims=(0, 1), cl=('exact', 'smaller'), bodies=(1,)), 'none'),
-            ('persist-chunked', 2, space(interims=(0, 1), te=('none', 'chunked'), cl=('exact',), conn=('none', 'close'),
-                                         bodies=(1,)), 'none'),
+            ('persist-chunked', 2, space(interims=(0, 1), te=('none', 'chunked'), cl=('exact',), bodies=(1,)), 'none'),
+            ('persist-surplus', 2, space(cl=('exact', 'smaller'), conn=('none', 'close'), bodies=(2,)), 'none'),
         ]
     else:
+        A = ALL
         designs = [
-            ('framing', 1, space(methods=('GET', 'HEAD'), statuses=ALL['statuses'], interims=(0, 1), te=ALL['te'],
-                                 cl=ALL['cl'], conn=('none', 'close'), bodies=(0, 1, 2, 3, 13), split=(1, 2), ext=(False, True),
-                                 tr=(False, True), sclose=(False, True)), 'all'),
-            ('format', 1, space(methods=('GET', 'HEAD'), statuses=(200, 304), te=ALL['te'], cl=('none', 'exact', 'smaller', 'nonnum'),
-                                conn=ALL['conn'], ver=ALL['ver'], fmt=ALL['fmt'], bodies=(0, 2, 13), split=(2,), ext=(True,),
-                                tr=(True,), sclose=(False, True)), 'all'),
-            ('persist', 2, space(methods=('GET', 'HEAD'), statuses=(200, 204), interims=(0, 1), te=('none', 'chunked', 'Chunked'),
-                                 cl=('none', 'exact', 'smaller', 'larger'), conn=('none', 'close'), bodies=(0, 1, 2),
-                                 tr=(True,), sclose=(False, True)), 'none'),
-            ('persist-trunc', 2, space(interims=(0, 1), te=('none', 'chunked'), cl=('none', 'exact', 'smaller'),
-                                       bodies=(1, 2), split=(2,), tr=(True,), sclose=(False, True)), 'all'),
+            ('framing', 1, space(methods=A['methods'], statuses=A['statuses'], interims=(0, 1), te=A['te'], cl=A['cl'],
+                                 bodies=(0, 1, 2), split=(2,), tr=(True,), sclose=(False, True)), 'all'),
+            ('format', 1, space(methods=A['methods'], statuses=(200, 304), te=A['te'], cl=('none', 'exact', 'smaller', 'nonnum'),
+                                conn=A['conn'], ver=A['ver'], fmt=A['fmt'], bodies=(2, 13), split=(2,), ext=(True,), tr=(True,),
+                                sclose=(False, True)), 'none'),
+            ('chunks', 1, space(te=('chunked', 'Chunked'), cl=('none', 'exact'), bodies=(0, 1, 2, 3, 13), split=(1, 2),
+                                ext=(False, True), tr=(False, True), fmt=('crlf', 'lf'), sclose=(False, True)), 'all'),
+            ('persist', 2, space(interims=(0, 1), te=('none', 'chunked'), cl=('exact', 'smaller'), conn=('none', 'close'),
+                                 bodies=(1,)), 'none'),
+            ('persist-surplus', 2, space(cl=('exact', 'smaller'), conn=('none', 'close'), bodies=(2, 3), sclose=(False, True)),
+             'none'),
+            ('persist-trunc', 2, space(te=('none', 'chunked'), cl=('exact',), bodies=(1,), tr=(True,)), 'all'),
         ]
     pool = ThreadPoolExecutor(max_workers=6)
     workers = 4 if quick else 6
     dfut = [(name, NX, sp, tr, pool.submit(tlc.run_tlc, 'HttpWire', design_cfg(NX, sp, fix, tr, invs), workers=workers,
-                                           timeout=3000, coverage=(name in ('framing', 'trunc')), heap='4g'))
+                                           timeout=3000, coverage=(name in ('framing', 'trunc', 'chunks')), heap='4g'))
             for (name, NX, sp, tr) in designs]
 
     # ---------------- 2. scenarios on the real code
     runs = []      # (origin, NX, exchanges, Run)
-    n_gen = (500, 350) if quick else (12000, 12000)
+    n_gen = (300, 200) if quick else (8000, 8000)
     gen_futs = []
     for NX, num in zip((1, 2), n_gen):
         scen = sample_choices(rng, max(200, num // 2), NX, ALL)
         gen_futs.append((NX, pool.submit(tlc_behaviours, NX, scen, fix, num, chk.seed + NX)))
-    n_rand = (400, 500) if quick else (8000, 10000)
+    n_rand = (300, 300) if quick else (5000, 6000)
     if warc:
         n_rand = (n_rand[0] // 2, n_rand[1] // 2)
     for NX, num in zip((1, 2), n_rand):
@@ -310,6 +330,7 @@ def run(chk):
             r = Run(exs, warc=warc)
             r.execute()
             runs.append(('random', NX, exs, r))
+    T['random_executed'] = time.time() - t00
     ngen = 0
     for NX, fut in gen_futs:
         scripts, res = fut.result()
@@ -319,6 +340,7 @@ def run(chk):
             r.execute()
             runs.append(('tlc', NX, exs, r))
             ngen += 1
+    T['generated_executed'] = time.time() - t00
     chk.extra['tlc_generated_behaviours'] = ngen
     chk.extra['random_scenarios'] = sum(n_rand)
 
@@ -335,15 +357,40 @@ def run(chk):
         chk.distinct.add(hash(key))
         groups.setdefault(NX, []).append((origin, exs, r, mt, strict_trace(r)))
 
-    def validate(NX):
+    # one TLC job per chunk of traces, several at a time
+    CH = 600 if quick else 1200
+    jobs = []
+    for NX in sorted(groups):
         items = groups[NX]
-        mv, mst = tlc.validate_batch('HttpWireMon', MON_CFG % NX, [it[3] for it in items], chunk=1500)
-        st_items = [it for it in items if it[4] is not None]
-        sv, sst = tlc.validate_batch('HttpWireTrace', strict_cfg(NX, fix), [it[4] for it in st_items], chunk=1500) \
-            if st_items else ([], {})
-        return mv, mst, dict(zip([id(it) for it in st_items], sv)), sst
+        for off in range(0, len(items), CH):
+            part = items[off:off + CH]
+            jobs.append((NX, 'mon', part))
+            st_part = [it for it in part if it[4] is not None]
+            if st_part:
+                jobs.append((NX, 'strict', st_part))
 
-    results = list(pool.map(validate, sorted(groups)))
+    def do_job(job):
+        NX, kind, part = job
+        if kind == 'mon':
+            return tlc.validate_batch('HttpWireMon', MON_CFG % NX, [it[3] for it in part])
+        return tlc.validate_batch('HttpWireTrace', strict_cfg(NX, fix), [it[4] for it in part])
+
+    outs = list(pool.map(do_job, jobs))
+    results = []
+    for NX in sorted(groups):
+        mv, sv = [], {}
+        mst = {'states': 0, 'distinct': 0}
+        sst = {'states': 0, 'distinct': 0}
+        for (jNX, kind, part), (v, st) in zip(jobs, outs):
+            if jNX != NX:
+                continue
+            if kind == 'mon':
+                mv += v
+                mst = {k: mst[k] + st.get(k, 0) for k in mst}
+            else:
+                sv.update(zip([id(it) for it in part], v))
+                sst = {k: sst[k] + st.get(k, 0) for k in sst}
+        results.append((mv, mst, sv, sst))
     n_strict = n_unabs = strict_persist_notes = 0
     for NX, (mv, mst, sv, sst) in zip(sorted(groups), results):
         chk.trace_stats(mst)
@@ -359,7 +406,8 @@ def run(chk):
             if m['matched'] < m['len'] and m['bad'] == 0:
                 raise tlc.TLCError('monitor did not consume a trace: %r' % (m,))
             for e in r.ev:
-                if e['e'] == 'done' and e['out'] == 'ok' and not e['closed'] and e['unseen'] > 0:
+                if e['e'] == 'done' and e['out'] == 'ok' and not e['closed'] and e['unseen'] > 0 \
+                        and not any(M.msg_class(ex['cm'], fix) for ex in exs[:e['x']]):
                     strict_persist_notes += 1
             if m['bad']:
                 clause = CLAUSES.get(m['bad'], str(m['bad']))
@@ -369,7 +417,7 @@ def run(chk):
                     # a record clause: the exchange whose URL the record carries, else the first one that is wrong
                     x = next((i + 1 for i, u in enumerate(mt['urls']) if u == e.get('uri')), None)
                 x = x or 1
-                sig = signature(pid, clause, exs, x)
+                sig = signature(pid, clause, exs, x, {ev['x']: ev for ev in r.ev if ev['e'] == 'done'}, fix)
                 chk.violation(sig, '%s violated at exchange %d (%s): %s; outcome events: %s'
                               % (clause, x, origin, ' | '.join(describe(ex) for ex in exs),
                                  json.dumps([{k: v for k, v in ev.items() if k not in ('srv',)}
@@ -397,8 +445,9 @@ def run(chk):
     chk.extra['binding_selftest'] = binding_selftest(fix, pid)
 
     # ---------------- collect the design checks
+    T['validated'] = time.time() - t00
     for name, NX, sp, tr, fut in dfut:
-        res = fut.result()
+        res = fix_coverage(fut.result())
         chk.design('HttpWire[%s,NX=%d,trunc=%s]' % (name, NX, tr), res, constants=dict(NX=NX, trunc=tr, **{k: list(v) for k, v in sp.items()}),
                    expect_actions=None)
     taken = set(a.split('.')[-1] for a, n in chk.coverage_actions.items() if n > 0)
@@ -408,6 +457,9 @@ def run(chk):
     pool.shutdown()
     chk.constants = {'design': [dict(name=n, NX=NX, trunc=tr, **{k: list(v) for k, v in sp.items()}) for (n, NX, sp, tr) in designs],
                      'generation_space': {k: list(v) for k, v in ALL.items()}}
+    T['designs_collected'] = time.time() - t00
+    chk.extra['timing_s'] = {k: round(v, 1) for k, v in T.items()}
+    chk.extra['design_wall_s'] = {d['name']: d['wall_s'] for d in chk.design_runs}
     chk.rule = ('exchanges of the real wpull HTTP client over the in-memory network: TLC-generated behaviours '
                 '(messages + piece sizes) rendered to octets, and seeded random concrete messages under random '
                 'segmentations; distinct = distinct recorded executions')
@@ -416,18 +468,33 @@ def run(chk):
 
 def binding_selftest(fix, pid):
     """Corrupting one logged field makes the strict spec reject; corrupting an observation makes the monitor fire."""
-    ch = dict(method='GET', status=200, te='chunked', cl='none', fmt='crlf', content=b'abcd', split=2, tr=True)
-    cm = M.build_cmsg(ch)
-    r = Run([{'cm': cm, 'pieces': [20, 30, 3, 2]}], warc=(pid == 'C04'))
-    r.execute()
+    # a synthetic, correct execution (independent of the code under test): a Content-Length message in one piece
+    cm = M.build_cmsg(dict(method='GET', status=200, te='none', cl='exact', fmt='crlf', content=b'abc'))
+    reqb = b'GET /p1 HTTP/1.1\r\nHost: h.test\r\n\r\n'
+    ev = [dict(e='conn', x=1), dict(e='breq', x=1), dict(e='req', x=1, data=reqb), dict(e='ans', x=1), dict(e='ereq', x=1),
+          dict(e='feed', x=1, n=len(M.sent(cm)))]
+    for (part, content, eol, t) in cm['lines']:
+        ev.append(dict(e='rd', x=1, data=content + eol))
+    ev += [dict(e='bresp', x=1), dict(e='rd', x=1, data=b'abc'), dict(e='dl', x=1, data=b'abc'), dict(e='eresp', x=1),
+           dict(e='done', x=1, out='ok', closed=False, left=0, unseen=0, srv=reqb)]
+    if pid == 'C04':
+        from drivers.httpwire_exec import url_of
+        ev += [dict(e='rec', t='request', uri=url_of(1), id='<urn:uuid:1>', conc='', ctype='', block=reqb),
+               dict(e='rec', t='response', uri=url_of(1), id='<urn:uuid:2>', conc='<urn:uuid:1>', ctype='',
+                    block=cm['head'] + b'abc'),
+               dict(e='warc_end')]
+
+    class Synthetic(object):
+        pass
+    r = Synthetic()
+    r.ev = ev
+    r.exchanges = [{'cm': cm, 'pieces': [len(M.sent(cm))]}]
     good = strict_trace(r)
     bad1 = json.loads(json.dumps(good))
-    for e in bad1['ev']:
-        if e['e'] == 'rd' and len(e['data']) == 1 and e['data'][0] < 256:
-            e['data'][0] ^= 1
-            break
+    body_rd = [e for e in bad1['ev'] if e['e'] == 'rd' and all(b < 256 for b in e['data']) and len(e['data']) == 3]
+    body_rd[-1]['data'][0] ^= 1
     bad2 = json.loads(json.dumps(good))
-    bad2['ev'] = [e for i, e in enumerate(bad2['ev']) if not (e['e'] == 'feed' and i > 3)][:]
+    bad2['ev'] = [e for e in bad2['ev'] if e['e'] != 'feed']
     bad3 = json.loads(json.dumps(good))
     for e in bad3['ev']:
         if e['e'] == 'done':
